@@ -321,13 +321,14 @@ def check_close(ctx, a, b, tol, label):
             s.add(er >= -S, er <= S, ei >= -S, ei <= S)
             re.append(er)
             im.append(ei)
-        zre = z3.Sum(re) if re else z3.RealVal(0)
-        zim = z3.Sum(im) if im else z3.RealVal(0)
+        zre = (z3.Sum(re) if len(re) > 1 else re[0]) if re else z3.RealVal(0)
+        zim = (z3.Sum(im) if len(im) > 1 else im[0]) if im else z3.RealVal(0)
         viol.append(z3.Or(zre > T, zre < -T, zim > T, zim < -T))
     s.add(z3.Or(viol))
     r = s.check()
     st.queries += 1
     st.solver_s += time.time() - t0
+    _maybe_cross_check(ctx, s, r, 'QF_LRA', label)
     if r == z3.unsat:
         st.vcs_linear += 1
         rec['stage'] = 'linear-abstraction-unsat'
@@ -391,6 +392,34 @@ def _pc_conds(ctx, pins):
     return out
 
 
+_CC = [0]
+
+
+def _maybe_cross_check(ctx, solver, verdict, logic, label):
+    """every N-th decided VC is re-decided by cvc5 (hygiene item: two solvers); a definite disagreement
+    makes the VC inconclusive"""
+    n = int(ctx.opts.get('cross_check_every', 0) or 0)
+    if n <= 0:
+        return
+    _CC[0] += 1  # per worker process, so sparse VCs per path are sampled too
+    if _CC[0] % n:
+        return
+    from .crosscheck import cvc5_decide
+
+    t0 = time.time()
+    v2 = cvc5_decide(solver, timeout_ms=ctx.opts.get('cross_check_timeout_ms', 5000), logic=logic)
+    ctx.stats.cc_s = getattr(ctx.stats, 'cc_s', 0.0) + time.time() - t0
+    ctx.stats.cc_total = getattr(ctx.stats, 'cc_total', 0) + 1
+    v1 = str(verdict)
+    if v2 in ('sat', 'unsat') and v1 in ('sat', 'unsat'):
+        if v1 == v2:
+            ctx.stats.cc_agree = getattr(ctx.stats, 'cc_agree', 0) + 1
+        else:
+            raise Inconclusive(f'{label}: solver disagreement z3={v1} cvc5={v2}')
+    elif v2.startswith('error'):
+        ctx.stats.cc_error = getattr(ctx.stats, 'cc_error', 0) + 1
+
+
 def _has_trig(ctx, sn):
     for s_ in sn:
         for (_m, ang) in s_.t:
@@ -434,6 +463,7 @@ def _exact_stages(ctx, items, tol, label, rec, proof_first=False):
     if not _has_trig(ctx, sn):
         # no abstraction involved: one exact query decides
         r, s = _query(ctx, 'over', 0, items, tol, sn, pcs)
+        _maybe_cross_check(ctx, s, r, None, label)
         if r == z3.unsat:
             st.vcs_exact += 1
             rec['stage'] = 'exact-unsat'
